@@ -213,13 +213,26 @@ def check_c02(tier):
                        extra=wide_lifetimes("C02", ("C02", "*")))
 
 
+def c03_bystander(tier, mi):
+    """E2: a thread without any guard keeps calling a never-faked function that shares its code page with
+    a function another thread fakes and un-fakes; every schedule, scheduling points at every OS call of the crate."""
+    tot, raw, samples, cases = e2_run("c03b", tier)
+    viols = e2_viols(raw, "c03b")
+    if tot["schedules"] < 100 and not viols:
+        raise MachineryError("vacuous bystander exploration")
+    return viols, {"states": tot["states"], "transitions": tot["steps"], "bystander_schedules": tot["schedules"], "bystander_scenarios": cases,
+                   "bystander_bound": "1-3 bystander calls x 1-2 lifetimes (scope exit / unwinding), every schedule; capped scenarios: %d" % tot["capped_cases"]}
+
+
 def check_c03(tier):
     runs = [(["--fs"], 4, False), (["--fs", "--text"], 3, True)] if tier == "quick" else [(["--fs"], 5, False), (["--fs", "--text"], 3, False), (["--fs", "--text"], 4, True)]
     return hist_family("C03", tier, runs, crash_phases=(),
                        crash_note="Process deaths are left to C01/C02 (counted as undecided here).",
                        conform=(["--fs"], 3, False),
                        assumptions_extra=["executable mappings are enumerated from /proc/self/maps; [vvar]/[vsyscall] are skipped",
-                                          "arena functions are packed at 16-byte pitch around the targets; a thunk target and an 8-byte-pitch pair are included"])
+                                          "arena functions are packed at 16-byte pitch around the targets; a thunk target and an 8-byte-pitch pair are included",
+                                          "concurrent part: a bystander thread (no guard) calls a never-faked function on the same code page as a function that another thread fakes and un-fakes, under every schedule of the crate's OS calls (E2)"],
+                       extra=c03_bystander)
 
 
 def c12_cycles(tier, mi):
